@@ -360,3 +360,29 @@ def save_replay(pid, name, obj):
         json.dump(obj, fh)
         fh.write("\n")
     return p
+
+
+# ---------------- race detector ----------------
+def race_env(ctx, tag):
+    """Environment for a -race harness run: reports go to files, the run continues."""
+    d = ctx.sub("race-" + tag)
+    return dict(GORACE="halt_on_error=0 exitcode=0 log_path=%s/r" % d), d
+
+
+def race_reports(d):
+    n, first = 0, None
+    for f in sorted(glob.glob(os.path.join(d, "r.*"))):
+        txt = open(f, errors="replace").read()
+        k = txt.count("WARNING: DATA RACE")
+        n += k
+        if k and first is None:
+            first = txt[:3000]
+    return n, first
+
+
+def patch_obs(trace_path, fn):
+    """Rewrite a trace file, letting fn(line_dict) amend the observation (e.g. add race counts)."""
+    rows = read_ndjson(trace_path)
+    for r in rows:
+        fn(r)
+    write_ndjson(trace_path, rows)
